@@ -895,4 +895,35 @@ def instOf (field hasher : String) : Option Inst :=
   else if field = "f62" ∧ hasher = "rp62_248" then some Inst.rp62
   else none
 
+/-- `q.b.g.x.f.r` -/
+def optsOf (s : String) : Option Serde.ProofOptions :=
+  match (s.splitOn ".").mapM VerifierChecks.parseNat with
+  | some [q, b, g, x, f, r] => some ⟨q, b, g, x, f, r⟩
+  | _ => none
+
+/-- `os:<q.b.g.x.f.r>[,..]` (OptionSet) | `mc:<bits>` (MinConjecturedSecurity) -/
+def acceptableOf (s : String) : Option Acceptable :=
+  if s.startsWith "os:" then ((((s.drop 3).toString).splitOn ",").mapM optsOf).map .optionSet
+  else if s.startsWith "mc:" then (VerifierChecks.parseNat ((s.drop 3).toString)).map .minConjectured
+  else none
+
+/-- `-` | comma separated integers -/
+def pubsOf (s : String) : Option (List Nat) :=
+  if s = "-" then some [] else (s.splitOn ",").mapM VerifierChecks.parseNat
+
+/-- the `refv` op line of the C03 and C06 drivers:
+    `refv <field> <hasher> <q.b.g.x.f.r> <seed> <AirDesc line> <acceptable> <public inputs> <tag> <proof bytes hex>`;
+    `bytes` = the decoded last token (`none`: not hexadecimal).  `-` = not modelled (another hasher / field, a
+    description with a Lagrange kernel column or one the parser does not accept) -/
+def refvLine (field hasher desc acc pubs : String) (bytes : Option (List Nat)) : String :=
+  match instOf field hasher with
+  | none => "-"
+  | some J =>
+    match parseDesc desc with
+    | none => "-"
+    | some d =>
+      match acceptableOf acc, pubsOf pubs, bytes with
+      | some a, some ps, some bs => (refVerify J d ps a bs).text
+      | _, _, _ => "bad-op"
+
 end Model.RefVerifier
